@@ -73,6 +73,25 @@ def build_arg(name, td, inputs):
         return v
     if k == "str":
         raw = bytes.fromhex(v["str_utf8"]) if isinstance(v, dict) and v.get("str_utf8") else b""
+        chars = v.get("chars") if isinstance(v, dict) else None
+        try:
+            text = raw.decode("utf-8")
+            if chars is None or len(text) == chars:
+                return text
+        except UnicodeDecodeError:
+            if chars is None:
+                return raw.decode("utf-8", errors="replace")
+        # model repair for abstract strings (the solver treats valid_utf8 / the character count as uninterpreted):
+        # a real string with the model's number of octets and characters, 1..4 octets per character
+        n = len(raw)
+        if chars is not None and chars <= n <= 4 * chars:
+            extra = n - chars
+            out = []
+            for _ in range(chars):
+                e = min(3, extra)
+                extra -= e
+                out.append(("a", "\u00e4", "\u20ac", "\U0001f600")[e])
+            return "".join(out)
         return raw.decode("utf-8", errors="replace")
     if k == "real":
         if isinstance(v, dict) and isinstance(v.get("real"), list):
